@@ -7,7 +7,8 @@ EXPLANATION = (
     "the MIR of runlib / crypto::calculate_hashes. D1: in in_toto_run, record(material_paths) Ok-dominates run_command, which "
     "Ok-dominates record(product_paths), and the link builder receives materials <- first recording, products <- second, "
     "byproducts <- the command's result. D2: every insertion into the artifact map is edge-dominated by "
-    "contains_key(same map, same key) == false. D3: by-products are stdout <- output.stdout, stderr <- output.stderr, "
+    "contains_key(same map, same key) == false, or is the Vacant arm of entry(key) whose Occupied arm returns an error; writers "
+    "that keep or replace an existing entry silently (or_insert, extend, append) are violations. D3: by-products are stdout <- output.stdout, stderr <- output.stderr, "
     "return value <- status.code(), and the process is started from cmd_args[0] with arguments cmd_args[1..] in run_dir. "
     "D4: every digest context created for the requested algorithms is updated with buf[0..n], n being the result of "
     "read(&mut buf) on the same buffer, and finished. D5: the walker follows links (constant true). D6: the loops that "
